@@ -1,0 +1,15 @@
+//go:build verif
+
+package state
+
+// VerifNewTrackerAt creates a tracker whose state index starts at the given
+// value instead of 1 (verification hook: lets a harness exercise the index
+// wrap-around; it changes no existing behaviour and is compiled only with the
+// build tag "verif").
+func VerifNewTrackerAt(index uint64) *Tracker {
+	tracker := NewTracker()
+	tracker.change.L.Lock()
+	tracker.index = index
+	tracker.change.L.Unlock()
+	return tracker
+}
